@@ -567,7 +567,9 @@ func ObserveDoc(text string, trailing bool, withLexemes bool) *DocOutcome {
 			d := NewDoc(text, trailing)
 			// (the value of a container lexeme is the container's whole text: for megabytes of nested
 			// brackets keeping every value would need terabytes - the stream is then only walked)
-			keep := len(text) <= 1<<16
+			// Up to 64 KB every lexeme is kept with its value; up to 1 MB every lexeme, with the values of literals,
+			// keys and of containers below 8 KB; beyond that the stream is walked only.
+			keep := len(text) <= 1<<20
 			for i := 0; i < 4*len(text)+16; i++ {
 				lex, err := d.NextLexeme()
 				if err != nil {
@@ -576,8 +578,11 @@ func ObserveDoc(text string, trailing bool, withLexemes bool) *DocOutcome {
 					}
 					return
 				}
-				if keep {
+				if ty := lex.Type().String(); keep && (len(text) <= 1<<16 || lex.End()-lex.Begin() < 8192 || strings.HasPrefix(ty, "literal-") || strings.HasPrefix(ty, "key-")) {
 					o.Lexemes = append(o.Lexemes, LexOf(lex))
+				} else if keep {
+					o.Lexemes = append(o.Lexemes, Lex{Type: lex.Type().String(), Begin: uint(lex.Begin()), End: uint(lex.End()), Value: "\x00(long value not kept)"})
+					_ = lex.Value().Len()
 				} else {
 					_ = lex.Value().Len()
 				}
